@@ -1087,6 +1087,8 @@ void EvalResultClear(tEvalResult* pResult) {
     pResult->DataSize      = eSymbolSizeUnknown;
 }
 
+static LongInt FuncNest = 0; /* nesting depth of user-defined function calls */
+
 /*****************************************************************************
  * Function:    EvalStrExpression
  * Purpose:     evaluate expression
@@ -1545,7 +1547,16 @@ void EvalStrExpression(tStrComp const* pExpr, TempResult* pErg) {
                 LEAVE2;
             }
             StrCompMkTemp(&CompArg, CompArgStr.p_str, CompArgStr.capacity);
+
+            /* a function whose definition calls itself never ends: limit like macros */
+
+            if ((NestMax > 0) && (FuncNest >= NestMax)) {
+                WrStrErrorPos(ErrNum_RekMacro, &FName);
+                LEAVE2;
+            }
+            FuncNest++;
             EvalStrExpression(&CompArg, pErg);
+            FuncNest--;
             pErg->Flags |= PromotedFlags;
             pErg->AddrSpaceMask |= PromotedAddrSpaceMask;
             if (pErg->DataSize == eSymbolSizeUnknown) {
